@@ -352,6 +352,33 @@ class HistoryModel:
         self._memo(('sample', c['input'], sd, target, hashlib.md5(lib['dump0'].encode()).hexdigest()), out,
                    'sampling from the shared library of %s (seed %d) changed within this history' % (c['input'], sd))
 
+    def scribble(self, i, variant):
+        """the caller reads the fragment blocks of a library AGAIN and edits the returned graphs in place (consumes
+        descriptors, re-weights, renames); nothing of that may show up in later reads of the same text"""
+        from cgsmiles import MoleculeResolver
+        if not self.libs:
+            return
+        lib = self.libs[i % len(self.libs)]
+        c = lib['case']
+        self.count('scribble')
+        self.log.append(['scribble', i, variant])
+        try:
+            dicts = sut(MoleculeResolver.read_fragment_strings, lib['blocks'], last_all_atom=c['last_all_atom'])
+        except SutError:
+            return
+        for d in dicts:
+            for name, g in d.items():
+                for n, nd in g.nodes(data=True):
+                    if variant % 3 == 0 and isinstance(nd.get('bonding'), list):
+                        del nd['bonding'][:]
+                    elif variant % 3 == 1:
+                        nd['weight'] = 99.0
+                        nd['fragname'] = 'scribbled'
+                    else:
+                        nd.clear()
+                if variant % 3 == 2:
+                    g.remove_edges_from(list(g.edges))
+
     def extend(self, i, variant):
         """read_fragments(text, fragment_dict=<library>): 'only unique new fragments are appended' - a definition
         under a name the library already holds must leave that entry as it is"""
@@ -453,6 +480,11 @@ def run_machine(seed, n_histories, steps, col):
             self._do(self.m.sample, i, sd, tw)
 
         @precondition(lambda self: self.m.libs)
+        @rule(i=st.integers(0, 50), variant=st.integers(0, 5))
+        def scribble(self, i, variant):
+            self._do(self.m.scribble, i, variant)
+
+        @precondition(lambda self: self.m.libs)
         @rule(i=st.integers(0, 50), variant=st.integers(0, 23))
         def extend(self, i, variant):
             self._do(self.m.extend, i, variant)
@@ -469,6 +501,10 @@ def run_machine(seed, n_histories, steps, col):
             report_multiple_bugs=False, print_blob=False))
     except AssertionError:
         pass
+    except BaseException as e:
+        from ..runner import is_flaky
+        if not (failures and is_flaky(e)):
+            raise
     if failures:
         kind, detail, log = failures[-1]
         col.record_failure(kind, detail, dict(input='history of %d steps' % len(log), history=log, features=['history']), 'history')
